@@ -26,7 +26,7 @@ DEFAULT_FEATURES = {
     "refined": 4, "cls": 6, "list": 2, "annlist": 3, "tuple": 0, "union": 1, "dependent": 0, "flaky": 0,
     "weights": 0, "nested": 1, "standalone": 1, "unreachable": 1, "plain": 1, "infeasible": 0,
     "max_abstract": 3, "max_classes": 9, "max_fields": 3, "future_annotations": 0, "concrete_start": 0,
-    "base_in_list": 1, "finite": 0, "nested_generic": 0, "nested_list": 0, "deep_chain": 0, "self_ref": 0, "multi_dependent": 0, "abstract_weights": 0, "nested_start": 0, "hollow": 0, "barren": 0, "falsy": 0,
+    "base_in_list": 1, "finite": 0, "nested_generic": 0, "nested_list": 0, "deep_chain": 0, "self_ref": 0, "multi_dependent": 0, "abstract_weights": 0, "nested_start": 0, "hollow": 0, "barren": 0, "falsy": 0, "wide_weights": 0,
 }
 
 
@@ -202,6 +202,8 @@ def gen_spec(H: Chooser, feat=None) -> dict:
 
     def weight():
         if feat["weights"] and H.draw(2):
+            if feat.get("wide_weights") and H.draw(4) == 0:
+                return H.pick([1e8, 1e-7, 1e6, 1e9])  # ratios beyond the resolution of the weighted chooser
             return H.pick([0.0, 0.5, 1.0, 2.0, 3.0, 0.25])
         return None
 
